@@ -10,8 +10,8 @@ OUT = "/verif/selftest/variants"
 
 # (property, name, file, old, new, expected rules, what)
 V = []
-def v(prop, name, file, old, new, expect, what, mentions=""):
-    V.append(dict(prop=prop, name=name, file=file, old=old, new=new, expect=expect, what=what, mentions=mentions))
+def v(prop, name, file, old, new, expect, what, mentions="", also=None):
+    V.append(dict(prop=prop, name=name, file=file, old=old, new=new, expect=expect, what=what, mentions=mentions, also=also or []))
 
 KV = "leader/kv_election.go"; HB = "leader/heartbeat.go"; W = "leader/watcher.go"; CN = "leader/connection.go"
 ER = "leader/error.go"; RT = "leader/retry.go"; VA = "leader/validation.go"; EL = "leader/election.go"; FE = "leader/fencing.go"
@@ -97,11 +97,17 @@ v("C10", "takeover-without-flag", KV, "if e.cfg.AllowPriorityTakeover && e.cfg.P
 v("C10", "takeover-with-revision-zero", KV, "newRev, err := e.kv.Update(e.key, payloadBytes, entry.Revision())", "_ = entry.Revision()\n\tnewRev, err := e.kv.Update(e.key, payloadBytes, 0)", ["C10-R1"], "the takeover Update does not present the read revision")
 # ---- C11
 v("C11", "default-grace-two-intervals", CN, "gracePeriod = 3 * d.election.cfg.HeartbeatInterval", "gracePeriod = 2 * d.election.cfg.HeartbeatInterval", ["C11-R1"], "default grace period 2 x heartbeat")
-v("C11", "expiry-ignores-status", CN, "if d.election.connectionMonitor.Status() != ConnectionStatusDisconnected {", "if false && d.election.connectionMonitor.Status() != ConnectionStatusDisconnected {",
-  ["C11-R3"], "grace expiry demotes although the connection is back")
+v("C11", "expiry-ignores-generation", CN, "\tif !current {\n", "\tif false && !current {\n",
+  ["C11-R3"], "grace expiry demotes although a reconnect / newer disconnect arrived since the timer was armed")
+v("C11", "expiry-decides-by-status", CN, "\tif !current {\n", "\t_ = current\n\tif d.election.connectionMonitor != nil && d.election.connectionMonitor.Status() != ConnectionStatusDisconnected {\n",
+  ["C11-R3"], "grace expiry decides by the monitor's status again (overwritten by verification success / closed)")
+v("C11", "stop-keeps-generation", CN, "\td.generation++\n\tif d.timer != nil {\n\t\td.timer.Stop()\n\t\td.timer = nil", "\tif d.timer != nil {\n\t\td.timer.Stop()\n\t\td.timer = nil",
+  ["C11-R3"], "stopping the timer does not invalidate a callback that has already fired")
+v("C11", "generation-compared-without-lock", CN, "\td.mu.Lock()\n\tcurrent := generation == d.generation\n\tdisconnectedAt := d.disconnectedAt\n\td.mu.Unlock()\n", "\tcurrent := generation == d.generation\n\td.mu.Lock()\n\tdisconnectedAt := d.disconnectedAt\n\td.mu.Unlock()\n",
+  ["C11-R3", "C20-R1"], "the arming counter is read without the handler mutex")
 v("C11", "reconnect-keeps-leadership-on-failed-validation", CN, "\t\te.handleReconnectVerificationFailed(err)\n\t\treturn\n\t}\n\n\t// Verification passed", "\t\treturn\n\t}\n\n\t// Verification passed",
   ["C11-R4"], "a failed token validation after reconnect does not demote")
-v("C11", "demote-under-handler-mutex", CN, "\td.mu.Lock()\n\tdisconnectedAt := d.disconnectedAt\n\td.mu.Unlock()\n", "\td.mu.Lock()\n\tdefer d.mu.Unlock()\n\tdisconnectedAt := d.disconnectedAt\n",
+v("C11", "demote-under-handler-mutex", CN, "\td.mu.Lock()\n\tcurrent := generation == d.generation\n\tdisconnectedAt := d.disconnectedAt\n\td.mu.Unlock()\n", "\td.mu.Lock()\n\tdefer d.mu.Unlock()\n\tcurrent := generation == d.generation\n\tdisconnectedAt := d.disconnectedAt\n",
   ["C11-R5"], "grace expiry demotes while holding the handler mutex (lock-order inversion with Stop)")
 v("C11", "timer-armed-for-followers", CN, "\tif !d.election.isLeader.Load() {\n\t\treturn\n\t}\n\n\t// Calculate grace period", "\t// Calculate grace period", ["C11-R2"], "the grace timer is armed although the instance does not lead")
 # ---- C12
@@ -116,8 +122,9 @@ v("C13", "watch-retry-without-pause", W, "\t\tselect {\n\t\tcase <-ctx.Done():\n
 v("C13", "decode-error-ignored", W, "\tif err := json.Unmarshal(valueBytes, &payload); err != nil {\n\t\treturn\n\t}\n", "\t_ = json.Unmarshal(valueBytes, &payload)\n", ["C13-R2"], "the watcher processes a record that failed to decode")
 # ---- C14
 v("C14", "adapter-update-unconditional", EL, "return a.kv.Update(key, value, rev)", "return a.kv.Put(key, value)", ["C14-R2"], "the adapter's Update ignores the revision")
-v("C14", "updates-per-call", EL, "\ta.once.Do(func() {\n\t\tentryChan := make(chan Entry, 1)\n\t\ta.entryChan = entryChan\n\t\tgo func() {\n\t\t\tdefer close(entryChan)\n\t\t\tfor natsEntry := range a.watcher.Updates() {\n\t\t\t\tif natsEntry != nil {\n\t\t\t\t\tentryChan <- &natsEntryAdapter{entry: natsEntry}\n\t\t\t\t} else {\n\t\t\t\t\tentryChan <- nil\n\t\t\t\t}\n\t\t\t}\n\t\t}()\n\t})\n", "\tfunc() {\n\t\tentryChan := make(chan Entry, 1)\n\t\ta.entryChan = entryChan\n\t\tgo func() {\n\t\t\tdefer close(entryChan)\n\t\t\tfor natsEntry := range a.watcher.Updates() {\n\t\t\t\tif natsEntry != nil {\n\t\t\t\t\tentryChan <- &natsEntryAdapter{entry: natsEntry}\n\t\t\t\t} else {\n\t\t\t\t\tentryChan <- nil\n\t\t\t\t}\n\t\t\t}\n\t\t}()\n\t}()\n",
-  ["C14-R1"], "Updates() builds a channel and goroutine per call")
+v("C14", "updates-per-call", EL, "\ta.once.Do(func() {\n\t\tentryChan := make(chan Entry, 1)\n", "\tfunc() {\n\t\tentryChan := make(chan Entry, 1)\n", ["C14-R1"], "Updates() builds a channel and goroutine per call", also=[("\t\t}()\n\t})\n\treturn a.entryChan", "\t\t}()\n\t}()\n\treturn a.entryChan")])
+v("C14", "forwarder-not-released", EL, "\t\t\t\tselect {\n\t\t\t\tcase entryChan <- entry:\n\t\t\t\tcase <-a.done:\n\t\t\t\t\treturn\n\t\t\t\t}\n", "\t\t\t\tentryChan <- entry\n", ["C14-R4"], "the forwarding goroutine blocks on its send after Stop")
+v("C14", "stop-does-not-close-done", EL, "\ta.stopOnce.Do(func() { close(a.done) })\n\t_ = a.watcher.Stop()", "\t_ = a.watcher.Stop()", ["C14-R4"], "Stop does not release the forwarding goroutine")
 v("C14", "adapter-create-swaps-arguments", EL, "return a.kv.Create(key, value)", "return a.kv.Create(string(value), []byte(key))", ["C14-R2"], "the adapter's Create swaps key and value")
 # ---- C15
 v("C15", "conflict-patterns-removed", ER, "\tif errors.Is(err, nats.ErrKeyExists) {\n\t\treturn true\n\t}\n\n\tpermanentPatterns := []string{\n\t\t\"revision mismatch\",\n\t\t\"wrong last sequence\",\n\t\t\"key exists\",\n", "\t_ = nats.ErrKeyExists\n\n\tpermanentPatterns := []string{\n\t\t\"revision mismatch\",\n", ["C15-R3"], "the client's conflict identities are dropped from the classifier")
@@ -142,6 +149,18 @@ v("C18", "gauge-not-updated-on-demotion", KV, "\te.recordTransition(fromState, S
 v("C18", "transition-from-constant", KV, "e.recordTransition(fromState, StateFollower)", "e.recordTransition(StateLeader, StateFollower)", ["C18-R2"], "transitions are recorded with a constant from-state")
 v("C18", "claim-store-outside-mutex", CN, "\tif e.isLeader.Load() {\n\t\tlog := e.getLogger()\n\t\tlog.Error(\"demoting_due_to_reconnect_verification_failure\",", "\tif e.isLeader.Load() {\n\t\te.isLeader.Store(false)\n\t\tlog := e.getLogger()\n\t\tlog.Error(\"demoting_due_to_reconnect_verification_failure\",",
   ["C18-R1"], "the claim is cleared outside the mutex without a state change")
+# ---- rules added after the second seeding round
+v("C03", "loops-on-election-context", KV, "\t\te.heartbeatLoop(termCtx)", "\t\te.heartbeatLoop(ctx)", ["C03-R9"], "the heartbeat loop runs on the election's context and outlives its term")
+v("C12", "validation-loop-on-election-context", KV, "\t\te.validationLoop(termCtx)", "\t\te.validationLoop(ctx)", ["C12-R6"], "the validation loop runs on the election's context and outlives its term")
+v("C03", "context-end-keeps-claim", HB, "func (e *kvElection) handleHeartbeatContextDone() {\n\te.demote(\"context_cancelled\")\n}", "func (e *kvElection) handleHeartbeatContextDone() {\n}", ["C03-R4"], "a cancelled Start context ends the heartbeat loop but leaves the claim")
+v("C03", "diagnostic-get-inline", HB, "\t\t\t\t\t\te.wg.Add(1)\n\t\t\t\t\t\tgo func() {\n\t\t\t\t\t\t\tdefer e.wg.Done()\n\t\t\t\t\t\t\te.logTakeover(ctx)\n\t\t\t\t\t\t}()", "\t\t\t\t\t\te.logTakeover(ctx)", ["C03-R10"], "the heartbeat loop reads the store synchronously")
+v("C17", "nan-blind-clamp", RT, "\tif !(backoff <= float64(cfg.MaxBackoff)) {", "\tif backoff > float64(cfg.MaxBackoff) {", ["C17-R4"], "the cap lets NaN (0 * +Inf) through to the conversion")
+v("C17", "clamp-by-builtin-min", RT, "\tif !(backoff <= float64(cfg.MaxBackoff)) {\n\t\tbackoff = float64(cfg.MaxBackoff)\n\t}", "\tbackoff = min(backoff, float64(cfg.MaxBackoff))", ["C17-R4"], "the builtin min propagates NaN")
+v("C17", "negative-limit-unbounded", RT, "\tif cfg.MaxAttempts < 0 {\n\t\treturn fmt.Errorf(\"%w: MaxAttempts must not be negative (got %d)\", ErrInvalidConfig, cfg.MaxAttempts)\n\t}\n", "", ["C17-R3"], "a negative MaxAttempts retries without bound")
+v("C10", "takeover-decision-memoised", W, "\tif e.cfg.AllowPriorityTakeover && e.cfg.Priority > payload.Priority {\n", "\tif e.cfg.AllowPriorityTakeover && e.cfg.Priority > payload.Priority && e.lastTransition.Load() != nil && time.Since(e.lastTransition.Load().(time.Time)) > time.Second {\n", ["C10-R5"], "the watch-triggered takeover attempt is rate limited by unrelated state")
+v("C14", "adapter-get-swallows-error", EL, "\tnatsEntry, err := a.kv.Get(key)\n\tif err != nil {\n\t\treturn nil, err\n\t}", "\tnatsEntry, err := a.kv.Get(key)\n\tif err != nil {\n\t\treturn nil, nil\n\t}", ["C14-R2"], "the adapter's Get turns a store error into 'no value'")
+v("C06", "watch-retry-backoff", W, "\t\tcase <-time.After(watchRetryInterval):", "\t\tcase <-time.After(watchRetryInterval * time.Duration(1+e.healthFailureCount.Load())):", ["C06-R2"], "the pause before the next existence check is computed and can grow")
+v("C03", "result-channel-shared", HB, "\t\t\tresultChan := make(chan updateResult, 1)\n", "", ["C03-R1"], "one result channel is shared by all refresh attempts", also=[("\tfor {\n\t\tselect {\n\t\tcase <-ctx.Done():\n\t\t\te.handleHeartbeatContextDone()", "\ttype updateResult struct {\n\t\trev uint64\n\t\terr error\n\t}\n\tresultChan := make(chan updateResult, 1)\n\tfor {\n\t\tselect {\n\t\tcase <-ctx.Done():\n\t\t\te.handleHeartbeatContextDone()"), ("\t\t\ttype updateResult struct {\n\t\t\t\trev uint64\n\t\t\t\terr error\n\t\t\t}\n", "")])
 # ---- C19
 v("C19", "demotion-does-not-cancel", KV, "\tif e.termCancel != nil {\n\t\te.termCancel()\n\t\te.termCancel = nil\n\t}\n", "", ["C19-R1"], "demotion no longer cancels the term context")
 v("C19", "promotion-context-from-background", KV, "promoteCtx, cancel := context.WithCancel(termCtx)", "_ = termCtx\n\t\t\tpromoteCtx, cancel := context.WithCancel(context.Background())", ["C19-R1"], "the promotion context is detached from the term")
@@ -179,7 +198,14 @@ def main():
             if src.count(x["old"]) != 1:
                 failed.append((key, "anchor text occurs %d times" % src.count(x["old"])))
                 continue
-            open(path, "w").write(src.replace(x["old"], x["new"]))
+            src = src.replace(x["old"], x["new"])
+            bad = [o for o, n in x["also"] if src.count(o) != 1]
+            if bad:
+                failed.append((key, "secondary anchor text not unique: %r" % bad[0][:40]))
+                continue
+            for o, n in x["also"]:
+                src = src.replace(o, n)
+            open(path, "w").write(src)
             run("gofmt -w %s" % path, check=False)
             b = run("go build ./... ", cwd=work, check=False)
             if b.returncode != 0:
